@@ -138,6 +138,10 @@ def injections(gen, cid, o):
             name = r.choice(["x_custom_prop", "x_foo", "foo_bar", "zzz"])
             mut(lambda x: at(x, path).__setitem__(name, r.choice(["v", 1, True, ["a"], {"k": 1}])),
                 "custom property %s at %s (%s)" % (name, ps, ex["cid"]), True)
+            if r.random() < 0.3:
+                # given but empty: nothing custom is stored
+                mut(lambda x: at(x, path).__setitem__(name, r.choice([None, []])),
+                    "custom property %s given as null / empty list at %s (%s)" % (name, ps, ex["cid"]), False)
             if r.random() < 0.25:
                 mut(lambda x: at(x, path).__setitem__("custom_properties", {"x_via_loophole": 1}),
                     "custom_properties key at %s (%s)" % (ps, ex["cid"]), True)
@@ -318,7 +322,7 @@ def gen_cases(run, per_class):
                     cs["requested"] = True
                 cases.append(cs)
                 key = site.split(" at ")[0]
-                for w in ("custom property inside", "custom property in registered", "custom property", "hash algorithm",
+                for w in ("custom property inside", "custom property given as null", "custom property in registered", "custom property", "hash algorithm",
                           "only hash algorithm", "recognised hash algorithm", "reference to custom type",
                           "reference to registered custom type", "reference to registered type", "unregistered extension type"):
                     if key.startswith(w):
@@ -339,6 +343,10 @@ def gen_cases(run, per_class):
             md["spec_version"] = "2.1"
         cases.append({"route": "parse", "cid": ver + "/MarkingDefinition", "data": md, "custom": True,
                       "site": "custom_properties key at definition (%s/StatementMarking)" % ver})
+    cases.append({"route": "parse", "cid": "2.1/Identity", "custom": False,
+                  "data": {"type": "identity", "spec_version": "2.1", "id": "identity--311b2d2d-f010-4473-83ec-1edf84858f4c",
+                           "created": "2020-01-01T00:00:00.000Z", "modified": "2020-01-01T00:00:00.000Z", "name": "a", "x_foo": None},
+                  "site": "custom property x_foo given as null / empty list at <top> (2.1/Identity)"})
     sight = {"type": "sighting", "spec_version": "2.1", "id": "sighting--311b2d2d-f010-4473-83ec-1edf84858f4c",
              "created": "2020-01-01T00:00:00.000Z", "modified": "2020-01-01T00:00:00.000Z",
              "sighting_of_ref": "marking-definition--613f2e26-407d-48c7-9eca-b8e91df99dc9"}
@@ -360,6 +368,8 @@ FINDINGS = [
 
 def classify(case, f):
     site = case.get("site", "")
+    if f["kind"] == "flag-true-but-strict-reparse-accepts" and "given as null / empty list" in site:
+        return "C04-null-valued-custom-property-sets-flag"
     if site.startswith("custom_properties key at definition (") and "MarkingDefinition" in case["cid"] and f["kind"] in (
             "flag-false-but-strict-reparse-refused", "custom-content-admitted-with-customization-disallowed"):
         return "C04-marking-definition-ignores-custom-flag-of-definition"
